@@ -10,6 +10,7 @@ import (
 	"math"
 	"os"
 	"path"
+	"sort"
 	"sync"
 	"sync/atomic"
 	"syscall"
@@ -437,6 +438,8 @@ func (c *Client) ReadDirContext(ctx context.Context, p string) ([]os.FileInfo, e
 	if err == io.EOF {
 		err = nil
 	}
+	// like os.ReadDir (and as Walk's lexical order needs): sorted by filename
+	sort.Slice(entries, func(i, j int) bool { return entries[i].Name() < entries[j].Name() })
 	return entries, err
 }
 
